@@ -166,6 +166,56 @@ def gen_base(rng, feat=None):
     return {"sys": lines, "cb": cb, "preds": preds, "feat": feat, "nprocs": nprocs, "nnodes": nnodes}
 
 
+def gen_timer_base(rng):
+    """timer-order-heavy systems: two processes, 2-3 timer names with different delays set in one handler (so that
+    later timers are withheld behind earlier ones), cancel_timer of names that may currently be withheld, issued from
+    message handlers that can overtake the timers; no override of pending timers (set_timer_once only)"""
+    nnodes = rng.choice([1, 2])
+    nprocs = 2
+    nnames = rng.choice([2, 3])
+    placement = [rng.randrange(nnodes) for _ in range(nprocs)]
+    delays = [0.5, 1.0, 1.0, 2.0, 3.0]
+    lines = ["NODE %d 0" % n for n in range(nnodes)]
+    for p in range(nprocs):
+        nrows = rng.choice([2, 3])
+        lines.append("PROC %d %d %d 0 0 %d" % (p, placement[p], rng.choice([2, 3]), nrows))
+        for ri in range(nrows):
+            acts = []
+            if ri == 0:
+                # arm several timers at once, non-decreasing delays more often than not
+                ds = [rng.choice(delays) for _ in range(nnames)]
+                if rng.random() < 0.7:
+                    ds.sort()
+                names = list(range(nnames))
+                rng.shuffle(names)
+                for nm, d in zip(names, ds):
+                    acts.append("T %d %d 1" % (nm, f64_bits(d)))
+                if rng.random() < 0.7:
+                    acts.append("S %d %s" % (rng.randrange(nprocs), gen_msg(rng)))
+            else:
+                for _ in range(rng.choice([1, 2, 3])):
+                    r = rng.random()
+                    if r < 0.45:
+                        acts.append("C %d" % rng.randrange(nnames))
+                    elif r < 0.7:
+                        acts.append("T %d %d 1" % (rng.randrange(nnames), f64_bits(rng.choice(delays))))
+                    else:
+                        acts.append("S %d %s" % (rng.randrange(nprocs), gen_msg(rng)))
+            lines.append("ROW %d %d %s" % (p, len(acts), " ".join(acts)))
+    lines.append("NET 0 0 0 %d %d" % (f64_bits(1.0), f64_bits(1.0)))
+    lines += clock_lines([0.0])
+    cb = []
+    for p in range(nprocs):
+        if p == 0 or rng.random() < 0.6:
+            cb.append("CB LOCAL %d %d %s" % (placement[p], p, gen_msg(rng)))
+    feat = {"timers": True, "override": False, "clock": False, "drop": False, "dupl": False, "corrupt": False, "crash": False,
+            "netops": False, "mf": rng.random() < 0.2, "stateless": False, "timer_rich": True}
+    if feat["mf"]:
+        cb.insert(0, "CB MODE 1")
+    preds = ["PRED INV NONE", "PRED GOAL NOEVENTS", "PRED PRUNE NONE", "PRED COLLECT NONE"]
+    return {"sys": lines, "cb": cb, "preds": preds, "feat": feat, "nprocs": nprocs, "nnodes": nnodes}
+
+
 def gen_crash_base(rng):
     """crashes with a lot pending: several processes per node, timers re-armed under the same name (also while
     still pending), messages in both directions; the callback crashes a node after its processes were started"""
